@@ -67,7 +67,7 @@ def enumerate_cases(tier):
 def _cli_case(draw, tier):
     big = tier == "thorough"
     desc = draw(gen.wellformed(max_targets=9 if big else 6, max_files=12 if big else 8, ticks=4, min_targets=2,
-                               shapes=(0, 2, 4, 5), spellings=(0, 1)))
+                               shapes=(0, 2, 4, 5), spellings=(0, 1, 4, 5, 7)))
     names = [t["name"] for t in desc["targets"]]
     vec = {n: draw(st.sampled_from(hist.VEC_STATES)) for n in names}
     pats = draw(st.one_of(st.just([]), gen.patterns(names)))
